@@ -127,7 +127,9 @@ class TimedList(Generic[Item]):
             raise ValueError("Column Names do not match.")
         for col_name, (col_type, default) in cls._item_class()._props.items():
             if col_name not in df:
-                df[col_name] = default
+                # One default per row: a list-valued default (e.g. Quaver
+                # keysounds) must fill every cell, not be taken as a column.
+                df[col_name] = [default] * len(df)
                 df[col_name] = df[col_name].astype(col_type)
 
         tl.df = df
